@@ -500,7 +500,16 @@ func Run(tier string) int {
 	}, func(i int, text string) {
 		rep.Report(mc.Violation{Symptom: "panic", Key: queries[i].text, Msg: queries[i].text + ": " + text})
 	})
+	sqSearches, sqNontrivial, sqRefusals, sqComplete := checkSubqueries(rep, worlds, tier, deadline.Add(20*time.Second))
+	searches += sqSearches
+	nontrivial += sqNontrivial
+	if !sqComplete {
+		timedOut = 1
+	}
 	cv := rep.Coverage
+	cv["subquery_searches"] = sqSearches
+	cv["subquery_cases_nontrivial"] = sqNontrivial
+	cv["subquery_refusals_by_engine"] = sqRefusals
 	cv["evaluations"] = searches
 	cv["distinct_nontrivial"] = nontrivial
 	cv["states"] = evals
@@ -522,7 +531,8 @@ func Run(tier string) int {
 	rep.Assumptions = []string{
 		"ties across the page edge may resolve either way: the sequence of sort-key tuples must equal that of the sorted truth, members must come from the truth, each once",
 		"hosts sort byte-wise on their raw address; tag membership of a pending stream is its definition evaluated on the stream (garbage bits planted under pending streams)",
-		"data atoms with different converter selectors are never combined in one query (the engine documents that as an error); sub-queries are not in this alphabet",
+		"data atoms with different converter selectors are never combined in one query (the engine documents that as an error)",
+		"sub-queries: positive conjunctions only (filters on x, relations between the main stream and x, filters on the main stream); a main stream is denoted iff some visible stream x satisfies them; engine refusals ('not supported') are recorded, not judged",
 	}
 	if len(outcomes) < 5 {
 		mc.Fatal("vacuous: %d outcomes", len(outcomes))
